@@ -325,11 +325,11 @@ func (licmp6) Run(c Case) Result {
 			k, data := a[0], n6unhex(a[1])
 			o := licmp6New(k)
 			df := &n6fb{}
-			cls := n6call(func() error { return o.decode(data, df) })
+			cls := n6decode(func() error { return o.decode(data, df) })
 			rend := o.render()
 			res.Obs = append(res.Obs, fmt.Sprintf("cls=%s;trunc=%d;%s;%s", cls, n6b2i(df.t), o.state(), rend))
-			if cls == "panic" {
-				res.Oracle = append(res.Oracle, n6oracle("C19:panic", "%s DecodeFromBytes panics on %s", k, a[1]))
+			if cls == "panic" || cls == "stuck" {
+				res.Oracle = append(res.Oracle, n6oracle("C19:"+cls, "%s DecodeFromBytes: %s on %s", k, cls, a[1]))
 			}
 			if strings.Contains(rend, "panic") {
 				res.Oracle = append(res.Oracle, n6oracle("C01:render", "%s renderer panics after decoding %s (%s)", k, a[1], rend))
@@ -345,23 +345,23 @@ func (licmp6) Run(c Case) Result {
 			k, da, db := a[0], n6unhex(a[1]), n6unhex(a[2])
 			o := licmp6New(k)
 			dfa := &n6fb{}
-			clsA := n6call(func() error { return o.decode(da, dfa) })
+			clsA := n6decode(func() error { return o.decode(da, dfa) })
 			if len(o.options()) > 0 {
 				tags["residue-options"] = true
 			}
 			df := &n6fb{}
-			cls := n6call(func() error { return o.decode(db, df) })
+			cls := n6decode(func() error { return o.decode(db, df) })
 			rend := o.render()
 			res.Obs = append(res.Obs, fmt.Sprintf("cls=%s;trunc=%d;%s;%s", cls, n6b2i(df.t), o.state(), rend))
 			// oracle C05: same result as a fresh object
 			fo := licmp6New(k)
 			fdf := &n6fb{}
-			fcls := n6call(func() error { return fo.decode(n6clip(db), fdf) })
+			fcls := n6decode(func() error { return fo.decode(n6clip(db), fdf) })
 			if cls != fcls || df.t != fdf.t || (fcls == "ok" && o.state() != fo.state()) {
 				res.Oracle = append(res.Oracle, n6oracle("C05:stale", "%s after %s (%s): reused %s;%s fresh %s;%s", k, a[1], clsA, cls, o.state(), fcls, fo.state()))
 			}
-			if cls == "panic" {
-				res.Oracle = append(res.Oracle, n6oracle("C19:panic", "%s DecodeFromBytes panics on %s after %s", k, a[2], a[1]))
+			if cls == "panic" || cls == "stuck" {
+				res.Oracle = append(res.Oracle, n6oracle("C19:"+cls, "%s DecodeFromBytes: %s on %s after %s", k, cls, a[2], a[1]))
 			}
 			if strings.Contains(rend, "panic") {
 				res.Oracle = append(res.Oracle, n6oracle("C01:render", "%s renderer panics after decoding %s then %s", k, a[1], a[2]))
@@ -375,11 +375,11 @@ func (licmp6) Run(c Case) Result {
 				data := n6unhex(a[1])
 				mk = func() *licmp6Obj {
 					o := licmp6New(k)
-					n6call(func() error { return o.decode(n6clip(data), &n6fb{}) })
+					n6decode(func() error { return o.decode(n6clip(data), &n6fb{}) })
 					o.attach(ph)
 					return o
 				}
-				if n6call(func() error { return licmp6New(k).decode(n6clip(data), &n6fb{}) }) != "ok" {
+				if n6decode(func() error { return licmp6New(k).decode(n6clip(data), &n6fb{}) }) != "ok" {
 					tags["error-residue"] = true
 				}
 			} else {
@@ -428,7 +428,7 @@ func (licmp6) Run(c Case) Result {
 				k, payload, ph = a[0], n6unhex(a[2]), a[3]
 				o = licmp6New(k)
 				df := &n6fb{}
-				first = n6call(func() error { return o.decode(n6unhex(a[1]), df) })
+				first = n6decode(func() error { return o.decode(n6unhex(a[1]), df) })
 			} else {
 				k, payload, ph = a[0], n6unhex(a[1]), a[2]
 				o = licmp6Build(k, a[3])
@@ -439,7 +439,7 @@ func (licmp6) Run(c Case) Result {
 			df2 := &n6fb{}
 			cls2 := "err"
 			if scls == "ok" {
-				cls2 = n6call(func() error { return o2.decode(n6clip(out), df2) })
+				cls2 = n6decode(func() error { return o2.decode(n6clip(out), df2) })
 			}
 			rend := o2.render()
 			res.Obs = append(res.Obs, fmt.Sprintf("scls=%s;cls=%s;trunc=%d;%s;%s", scls, cls2, n6b2i(df2.t), o2.state(), rend))
